@@ -122,7 +122,7 @@ def compare(model, exe, lines):
 
 MEMPOOL_WRAP = "-Wl,--wrap=posix_memalign"
 STACK_WRAP = ("-Wl,--wrap=malloc,--wrap=calloc,--wrap=realloc,--wrap=free,--wrap=posix_memalign,"
-              "--wrap=memalign,--wrap=aligned_alloc,--wrap=mmap,--wrap=munmap")
+              "--wrap=memalign,--wrap=aligned_alloc,--wrap=mmap,--wrap=munmap,--wrap=mprotect")
 
 
 def _page_struct():
@@ -452,6 +452,8 @@ def t2_stack(res, tier, broken):
     progs = 0
     for ei, (env, defS, lo) in enumerate(STACK_ENVS):
         n = (4000 if thorough else 120) if ei == 0 else (300 if thorough else 20)
+        if any(k == "ABT_STACK_OVERFLOW_CHECK" and v != "none" for k, v in env):
+            n = 2500 if thorough else 60   # guard placement depends on where malloc puts the block within a page
         lines, hist = gen_stack_ops(rng, n, thorough, env, defS, lo)
         total.update(hist)
         total["env:" + (",".join("%s=%s" % kv for kv in env) or "default")] += 1
@@ -513,10 +515,6 @@ def validate_memowner(lg, params):
 def t3_memowner(res, tier, broken):
     from vlib import t1, vs
     from checks import sched_common
-    n, tb = t1.check(T1_FUNCS)
-    res.add_cov(t1_functions=n, t1_broken=len(tb))
-    for b in tb:
-        broken.append({"kind": "T1-skeleton", **b})
     vs.campaign(res, broken, tier, "C15", "sc_units", ["sc_units.c"], sched_common.scenario_params, validate_memowner,
                 sizes={"quick": (12, 3), "thorough": (150, 8), "search": (150, 6)})
 
@@ -565,9 +563,6 @@ class _Cov:
 
 def t3_mempoolconc(res, tier, broken):
     from vlib import t1, vs, t3_mempool
-    n, tb = t1.check(T1_CONC)
-    for b in tb:
-        broken.append({"kind": "T1-skeleton", **b})
     teardown = collections.Counter()
     maxlifo = [0]
     fails = [0]
@@ -587,18 +582,25 @@ def t3_mempoolconc(res, tier, broken):
                 reject_is_failure=vs.protocol_reject_is_failure)
     c = cov.cov
     res.add_cov(mempoolconc={
-        "t1_functions": n, "t1_broken": len(tb), "programs_and_schedules": c.get("programs_and_schedules"), "runs": c.get("runs"),
+        "t1_functions": len(T1_CONC), "programs_and_schedules": c.get("programs_and_schedules"), "runs": c.get("runs"),
         "outcomes": c.get("outcomes"), "traces_validated_against_impl": c.get("traces_validated_against_impl"),
         "projected_events": c.get("projected_events"), "model_transitions_exercised": c.get("model_transitions_exercised"),
         "model_transitions": c.get("model_transitions"),
         "teardown_runs_by_pages_on_mem_page_lifo": {"0": teardown[0], "1": teardown[1], ">=2": teardown[2]},
         "max_pages_on_mem_page_lifo": maxlifo[0], "injected_page_allocation_failures": fails[0]})
-    res.add_cov(t1_functions=n, t1_broken=len(tb), traces_validated_against_impl=c.get("traces_validated_against_impl") or 0,
+    res.add_cov(traces_validated_against_impl=c.get("traces_validated_against_impl") or 0,
                 projected_events=c.get("projected_events") or 0, runs=c.get("runs") or 0)
 
 
 def run(res, tier, broken):
     run_corpus(res)
+    # the skeleton ties first: a difference there widens every search below (T2 included)
+    from vlib import t1
+    n, tb = t1.check(T1_FUNCS)
+    n2, tb2 = t1.check(T1_CONC)
+    res.add_cov(t1_functions=n + n2, t1_broken=len(tb) + len(tb2))
+    for b in tb + tb2:
+        broken.append({"kind": "T1-skeleton", **b})
     try:
         private_driver()
         t2_mempool(res, tier, broken)
